@@ -76,11 +76,30 @@ fn string_op_inner<'b>(ctx: &mut Ctx, bump: &'b Bump, s: &mut BString<'b>, t: &m
         }
         8 => {
             let x = text(c, (a % 7) as usize);
-            match b % 3 {
+            match b % 8 {
                 0 => {
                     ctx.both("String::extend(chars)", || s.extend(x.chars()), || t.extend(x.chars()));
                 }
-                1 => {
+                // iterators whose size_hint says little or nothing (lower bound 0, no upper bound): the text must not depend on the hint
+                3 => {
+                    ctx.both("String::extend(chars().filter(..))", || s.extend(x.chars().filter(|ch| *ch != ' ')), || t.extend(x.chars().filter(|ch| *ch != ' ')));
+                }
+                4 => {
+                    let cs: Vec<char> = x.chars().collect();
+                    ctx.both("String::extend(&char, skip_while)", || s.extend(cs.iter().skip_while(|ch| ch.is_ascii())), || t.extend(cs.iter().skip_while(|ch| ch.is_ascii())));
+                }
+                5 => {
+                    let mk = || {
+                        let mut it = x.chars();
+                        std::iter::from_fn(move || it.next())
+                    };
+                    ctx.both("String::extend(iter::from_fn(..))", || s.extend(mk()), || t.extend(mk()));
+                }
+                6 => {
+                    let parts: Vec<&str> = x.split(' ').collect();
+                    ctx.both("String::extend(&str, filtered) / flat_map of chars", || { s.extend(parts.iter().cloned().filter(|p| !p.is_empty())); s.extend(parts.iter().flat_map(|p| p.chars().take(1))); }, || { t.extend(parts.iter().cloned().filter(|p| !p.is_empty())); t.extend(parts.iter().flat_map(|p| p.chars().take(1))); });
+                }
+                1 | 7 => {
                     let parts: Vec<&str> = x.split_inclusive(' ').collect();
                     ctx.both("String::extend(&str)", || s.extend(parts.iter().cloned()), || t.extend(parts.iter().cloned()));
                 }
@@ -236,14 +255,20 @@ fn string_op_inner<'b>(ctx: &mut Ctx, bump: &'b Bump, s: &mut BString<'b>, t: &m
             let x = text(c, (a % 9) as usize);
             let ns = {
                 let _g = enter_arena(1);
-                if b & 1 == 0 {
-                    BString::from_iter_in(x.chars(), bump)
-                } else {
-                    use bumpalo::collections::CollectIn;
-                    x.chars().rev().collect_in::<BString>(bump)
+                use bumpalo::collections::CollectIn;
+                match b & 3 {
+                    0 => BString::from_iter_in(x.chars(), bump),
+                    1 => x.chars().rev().collect_in::<BString>(bump),
+                    2 => BString::from_iter_in(x.chars().filter(|ch| !ch.is_ascii_digit()), bump),
+                    _ => x.chars().skip_while(|ch| *ch == ' ').step_by(2).collect_in::<BString>(bump),
                 }
             };
-            let nt: String = if b & 1 == 0 { x.chars().collect() } else { x.chars().rev().collect() };
+            let nt: String = match b & 3 {
+                0 => x.chars().collect(),
+                1 => x.chars().rev().collect(),
+                2 => x.chars().filter(|ch| !ch.is_ascii_digit()).collect(),
+                _ => x.chars().skip_while(|ch| *ch == ' ').step_by(2).collect(),
+            };
             return SAfter::New(ns, nt);
         }
         18 if c & 1 == 1 => {
